@@ -37,7 +37,7 @@ Proof. exact reachable_tables_ok. Qed.
 (* non-vacuity: three transactions on entity 1 (insert, update in two flushes, delete + re-insert
    in one transaction) interleaved with entity 2 *)
 Definition C03_cfg : cfg :=
-  mkcfg true false false false false [mkcls true true 0 [mkcol true false; mkcol false false] []].
+  mkcfg true false false false false [mkcls true true 0 [mkcol true false true; mkcol false false true] []].
 Definition ins k v := mkev 0 0 [Some k; Some v] [true;true] [] [0%nat;1%nat] false true [false;false].
 Definition upd k v := mkev 0 1 [Some k; Some v] [false;true] [] [1%nat] false false [false;false].
 Definition del k v := mkev 0 2 [Some k; Some v] [false;false] [] [] true false [false;false].
